@@ -43,6 +43,7 @@ fn main() {
     }
     let mut ctx = Ctx { seed: 1, thorough: false, replay: None };
     let mut out: Option<String> = None;
+    let mut extra: Vec<String> = vec![];
     let mut i = 2;
     while i < args.len() {
         match args[i].as_str() {
@@ -62,7 +63,7 @@ fn main() {
                 ctx.replay = Some(args[i + 1].clone());
                 i += 1;
             }
-            _ => {} // sub-command specific arguments are read by the sub-command
+            other => extra.push(other.to_string()), // sub-command specific arguments
         }
         i += 1;
     }
